@@ -53,8 +53,9 @@ class Cancelled(BaseException):
 class Event:
     """A server event, identified by an id; whether it is the disconnect is a predicate of the id."""
 
-    def __init__(self, v, eid):
+    def __init__(self, v, eid, code=None):
         self.v, self.eid = v, eid
+        self.code = code  # the 'code' key of a disconnect event (None: the server sent none)
 
     def __pyvc_getitem__(self, k):
         assert k == 'type'
@@ -63,6 +64,8 @@ class Event:
         return EventType.WS_DISCONNECT if bool(mk_bool(IS_DISC(_i(self.eid)))) else EventType.WS_RECEIVE
 
     def get(self, k, default=None):
+        if k == 'code' and self.code is not None:
+            return self.code
         return default
 
 
@@ -133,11 +136,12 @@ class Deque:
 class World:
     """Shared state + ghosts + the await-site stubs (cut points)."""
 
-    def __init__(self, v, role):
+    def __init__(self, v, role, min_queue=1):
         self.v = v
         self.role = role  # which coroutine this harness executes: 'pump' | 'receive' | 'stop'
         c = v.ctx
-        self.maxq = v.int('max_queue', 1)
+        self.maxq = v.int('max_queue', min_queue)
+        self.expect_code = None  # ghost: the close code the disconnect event pulled in this run stands for
         self.msgs = c.fresh_const('msgs', SEQ)
         self.pulled = c.fresh_const('pulled', SEQ)
         self.delivered = c.fresh_const('delivered', SEQ)
@@ -182,6 +186,12 @@ class World:
         i7 = Implies(And(self.pump_done, Not(self.pump_cancelled)), And(self.disc, h == 0)) if self.role != 'pump' else True
         return And(i1, i2, i3, i4, i5, i5b, i6, i7)
 
+    def check_code(self):
+        """The pump publishes the client's close code together with the flag (C17 reports it to senders): the event's code, 1000 when it has none."""
+        if self.expect_code is not None:
+            got = self.obj.client_disconnected_code
+            self.v.check('disconnect-code-recorded-together-with-the-flag', And(self.disc, got == self.expect_code) if got is not None else False)
+
     def snapshot(self):
         self.snap = dict(msgs=self.msgs, pulled=self.pulled, delivered=self.delivered, hand=self.hand, disc=self.disc, popw=self.popw, putw=self.putw,
                          popw_done=(self.popw.is_done if self.popw is not None else None), putw_done=(self.putw.is_done if self.putw is not None else None))
@@ -204,6 +214,8 @@ class World:
         self.sync_in()
         v.check('invariant-at-await:%s' % site, self.inv())
         v.check('guarantee-of-%s-segment-ending-at:%s' % (self.role, site), guarantee())
+        if self.role == 'pump':
+            self.check_code()
         n = self.visits.get(site, 0) + 1
         self.visits[site] = n
         if n >= 2:
@@ -231,9 +243,15 @@ class World:
         self.pulled = z3.simplify(z3.Concat(self.pulled, z3.Unit(_i(eid))))
         self.hand = z3.simplify(z3.Unit(_i(eid)))
         self.seen_disc = Or(self.seen_disc, mk_bool(IS_DISC(_i(eid))))
+        code = None
+        if bool(mk_bool(IS_DISC(_i(eid)))):
+            # websocket.disconnect with or without a 'code' key
+            if v.choose(2, 'disconnect-code-present?'):
+                code = v.int('disconnect_code')
+            self.expect_code = 1000 if code is None else code
         self.sync_out()
         self.snapshot()
-        return Event(v, eid)
+        return Event(v, eid, code)
 
     def havoc_receiver_side(self):
         """What the receiver may have done to its own waiter while the pump was suspended."""
@@ -345,11 +363,16 @@ class PumpTask:
         # stop(): awaiting the cancelled pump: it finishes (its finally blocks clear the put-waiter) and raises CancelledError here
         w = self.w
         w.v.check('stop-awaits-only-a-cancelled-pump', getattr(w, 'cancel_requested', False))
+        finished_before = bool(w.pump_done)  # the pump had returned by itself (it queued the disconnect) before stop() was called
         w.pump_done = True
         w.obj._put_message_waiter = None
         w.hand_dropped = True
+        if finished_before:
+            w.v.cover('stop-awaits-a-finished-pump')
+            return None  # cancel() on a finished task is a no-op and awaiting it returns its result
         import asyncio
 
+        w.v.cover('stop-awaits-a-cancelled-pump')
         w.v.ctx.raise_py(asyncio.CancelledError)
 
 
@@ -370,8 +393,8 @@ class AsgiReceive:
         return Aw()
 
 
-def mk_receiver(v, role):
-    w = World(v, role)
+def mk_receiver(v, role, min_queue=1):
+    w = World(v, role, min_queue)
     o = v.obj(BR, _asgi_receive=AsgiReceive(w), _max_queue=w.maxq, _loop=Loop(w), _messages=Deque(w), _pop_message_waiter=None,
               _put_message_waiter=None, _pump_task=PumpTask(w), client_disconnected=w.disc, client_disconnected_code=None)
     w.obj = o
@@ -383,6 +406,10 @@ def _setup(reg, ex):
 
     def wait_model(I, aws, return_when=None, **kw):
         fut = aws[0]
+        w = fut.w
+        # what the model below implements: "until the pop-waiter OR the pump task is done, whichever comes first"
+        w.v.check('waits-for-the-pop-waiter-or-the-pump-task-whichever-completes-first',
+                  len(aws) == 2 and isinstance(aws[0], Fut) and aws[0].kind == 'new' and aws[1] is w.obj._pump_task and return_when == asyncio.FIRST_COMPLETED and not kw)
 
         class Aw:
             __pyvc_symbolic__ = True
@@ -420,6 +447,7 @@ def pump_segments(v):
         return
     w.pump_done = True
     v.check('pump-finishes-only-after-queueing-the-disconnect', And(w.disc, seq_len(w.hand) == 0))
+    w.check_code()
     v.check('invariant-at-pump-exit', w.inv())
     v.check('guarantee-of-pump-segment-ending-at:exit', w.guarantee_pump())
     v.cover('pump-finished')
@@ -478,6 +506,7 @@ def receive_segments(v):
 def stop_receiver(v):
     if v.concrete:
         return
+    v.expect_covers('stop-awaits-a-finished-pump', 'stop-awaits-a-cancelled-pump')
     w, o = mk_receiver(v, 'stop')
     has_task = v.choose(2, 'pump-started?')
     if not has_task:
@@ -495,7 +524,8 @@ def start_receiver(v):
         return
     import asyncio
 
-    w, o = mk_receiver(v, 'stop')
+    v.expect_covers('buffered', 'unbuffered')
+    w, o = mk_receiver(v, 'stop', 0)  # max_queue == 0 is the unbuffered mode: nothing is started
     already = v.choose(2, 'already-started?')
     task0 = o._pump_task
     if not already:
@@ -512,8 +542,12 @@ def start_receiver(v):
     v.check('start-never-raises', out.exc is None)
     if already:
         v.check('start-is-idempotent', o._pump_task is task0 and not created)
+    elif w.maxq > 0:
+        v.check('pump-started-exactly-once-when-buffering', len(created) == 1 and o._pump_task == 'TASK')
+        v.cover('buffered')
     else:
-        v.check('pump-started-exactly-once-when-buffering', Ite(w.maxq > 0, len(created) == 1 and o._pump_task == 'TASK', True))
+        v.check('no-pump-task-when-buffering-is-disabled', not created and o._pump_task is None)
+        v.cover('unbuffered')
 
 
 _WS = 'falcon/asgi/ws.py'
@@ -533,6 +567,17 @@ KILLS = [
      '_BufferedReceiver.receive#invariant-at-receive-exit'),
     # the disconnect flag is never set: the pump would pull again after the disconnect
     (_WS, "                self.client_disconnected = True\n", "                pass\n", '_BufferedReceiver._pump#'),
+    # --- one per input freed by the fixed-input audit ---------------------------------------------------------------------
+    # the client's close code is dropped: every disconnect is recorded as 1000 (invisible while the event stub had no 'code' key)
+    (_WS, "                self.client_disconnected_code = received_event.get(\n                    'code', WSCloseCode.NORMAL\n                )\n",
+     "                self.client_disconnected_code = WSCloseCode.NORMAL\n", '_BufferedReceiver._pump#disconnect-code-recorded-together-with-the-flag'),
+    # a pump task is started in the unbuffered mode too (max_receive_queue == 0)
+    (_WS, "        if self._pump_task is None and self._max_queue > 0:\n", "        if self._pump_task is None:\n", '_BufferedReceiver.start#no-pump-task-when-buffering-is-disabled'),
+    # stop() forgets the task only when awaiting it raised CancelledError: a pump that had already finished by itself stays registered
+    (_WS, "        except asyncio.CancelledError:\n            pass\n\n        self._pump_task = None\n", "        except asyncio.CancelledError:\n            self._pump_task = None\n",
+     '_BufferedReceiver.stop#after-stop-no-pump-task-is-registered'),
+    # receive() waits for the waiter AND the pump task: a queued message is not delivered until the pump ends
+    (_WS, "return_when=asyncio.FIRST_COMPLETED", "return_when=asyncio.ALL_COMPLETED", '_BufferedReceiver.receive#waits-for-the-pop-waiter-or-the-pump-task-whichever-completes-first'),
 ]
 HARMLESS = [
     # re-checking the capacity after a wake-up is defensive: the pump is the only producer, so `if` is equivalent
@@ -547,6 +592,9 @@ ASSUMPTIONS = [
     'the rely used when a coroutine resumes is the reflexive-transitive closure of the other coroutines\' guarantees; each guarantee is checked on every segment',
 ]
 NOT_DECIDED = [
+    'inputs that stay fixed: receive_after_sender_saw_disconnect is one concrete history (codes 1001, one queued text message) demonstrating a recorded finding; '
+    'server events are ids with a disconnect predicate (payloads are opaque to the buffer), a disconnect event has a code or none; a pump task that ended with an '
+    'exception of the server receive callable (stop() would re-raise it) is outside the rely (C17 assumption: stop() returns normally)',
     'liveness / promptness as such ("reported promptly"): only the safety cores (no lost wake-up I3, no pull after disconnect I6) are decided',
     'the surfacing of the disconnect in WebSocket._send/_receive/closed/ready belongs to C17; the unbuffered mode (max_queue == 0) is the pass-through of WebSocket.__init__ (C17)',
 ]
